@@ -242,6 +242,22 @@ def exec_programs(ctx, programs, name, profile="release"):
     return pout, n
 
 
+
+def apalache(ctx, module, args, name, timeout=900):
+    """Run apalache-mc check on a module of /verif/spec; returns "ok", "error" (counterexample found) or "unavailable"."""
+    t0 = time.time()
+    try:
+        r = subprocess.run(["apalache-mc", "check", "--out-dir=" + ctx.path("apalache-" + name)] + list(args) + [os.path.join(SPEC, module)],
+                           cwd=ctx.dir, stdout=subprocess.PIPE, stderr=subprocess.STDOUT, text=True, timeout=timeout)
+    except (subprocess.TimeoutExpired, FileNotFoundError) as e:
+        return "unavailable: %s" % type(e).__name__, round(time.time() - t0, 1)
+    if "EXITCODE: OK" in r.stdout:
+        return "ok", round(time.time() - t0, 1)
+    if "EXITCODE: ERROR (12)" in r.stdout:
+        return "error", round(time.time() - t0, 1)
+    return "unavailable: " + r.stdout[-300:].replace("\n", " "), round(time.time() - t0, 1)
+
+
 def judge_file(trace_cfg, trace_tla, events_path, prop, timeout=1800, env=None, xmx="4g"):
     e = {"TRACE": events_path, "PROP": prop}
     if env:
